@@ -149,7 +149,10 @@ def run_differential(res: Result, prop: str, rng: random.Random, nprograms: int,
                                      'problem': 'transformed program does not return where the original does (more than 100x its steps)',
                                      'source': p.source, 'transformed': new_text,
                                      'mechanism': {'kind': 'does_not_return', 'transform': label.split('[')[0],
-                                                   'derived_iter_body_writes': 'derived_iter_body_writes' in p.features}})
+                                                   'derived_iter_body_writes': 'derived_iter_body_writes' in p.features,
+                                               # F74: fp.isnormal reads the context attached to its operand, which a folded literal lacks
+                                               'isnormal_without_context': bool(r[0] == 'exc' and 'fp.isnormal' in p.source
+                                                                                and 'without a context cannot be normalized' in str(r[2]))}})
                         break
                     if r[0] == 'ok' and r[1] == want:
                         if new_text != orig_text:
@@ -165,7 +168,10 @@ def run_differential(res: Result, prop: str, rng: random.Random, nprograms: int,
                                  'source': p.source, 'transformed': new_text,
                                  'mechanism': {'kind': 'value' if r[0] == 'ok' else 'raises', 'transform': label.split('[')[0],
                                                'exception': r[1] if r[0] == 'exc' else None,
-                                               'derived_iter_body_writes': 'derived_iter_body_writes' in p.features}})
+                                               'derived_iter_body_writes': 'derived_iter_body_writes' in p.features,
+                                               # F74: fp.isnormal reads the context attached to its operand, which a folded literal lacks
+                                               'isnormal_without_context': bool(r[0] == 'exc' and 'fp.isnormal' in p.source
+                                                                                and 'without a context cannot be normalized' in str(r[2]))}})
                     break
             if pi < 2:
                 res.sample({'program': p.source[-700:], 'inputs': len(inputs), 'transforms': [t[0] for t in tlist][:8]})
